@@ -6,6 +6,7 @@ import itertools
 
 import basix
 import numpy as np
+from hypothesis import strategies as st
 
 from .. import formcheck, inputs, kernels, refeval, specs, strategies
 from ..common import Run, ShardResult, run_shards, scratch, spec_hash, verif_seed
@@ -300,6 +301,23 @@ def _by_node(vec, element, Ps, cell):
     return out
 
 
+@st.composite
+def flag_family(draw):
+    """Two dS integrals with different rules in one subdomain: one couples both sides, the other is one-sided (either order)."""
+    spec = draw(strategies.form_specs(dict(P_FORMS, arities=[0], max_integrals=1, ncoef=(2, 2), element_tags=["P", "DG"], nconst=(0, 0))))
+    X, Y = ["f", 0], ["f", 1]
+    two = ["mul", ["+", X], ["-", Y]]
+    one = ["mul", [draw(st.sampled_from(["+", "-"])), X], ["+", Y]] if draw(st.booleans()) else ["+", X]
+    q1 = draw(st.integers(2, 4))
+    q2 = draw(st.integers(2, 5).filter(lambda q: q != q1))
+    ints = [{"m": "dS", "id": None, "md": {"quadrature_degree": q1}, "e": two}, {"m": "dS", "id": None, "md": {"quadrature_degree": q2}, "e": one}]
+    if draw(st.booleans()):
+        ints = ints[::-1]
+    spec["integrals"] = ints
+    spec["_features"] = sorted(set(spec.get("_features", [])) | {"flag-family"})
+    return spec
+
+
 def shard(shard, nshards, n, max_pairs, seed):
     res = ShardResult()
     extra = set()
@@ -312,7 +330,7 @@ def shard(shard, nshards, n, max_pairs, seed):
         return o
 
     with scratch(f"vf-c03-{shard}-") as wd:
-        drive(strategies.form_specs(P_FORMS), ev, n, (PROP, seed, shard), res, shrink_calls=20)
+        drive(st.one_of(strategies.form_specs(P_FORMS), strategies.form_specs(P_FORMS), flag_family()), ev, n, (PROP, seed, shard), res, shrink_calls=20)
     res.nontrivial.update(extra)
     res.evaluations += npairs[0]
     res.counters["numbering-pairs-evaluated"] = npairs[0]
